@@ -57,7 +57,7 @@ RECURSIVE HeightOf(_)
 HeightOf(b) == IF b = 0 THEN BaseH ELSE 1 + HeightOf(Parent(b))
 \* proof of work of one block in units of the minimum difficulty (1 unless the scenario says otherwise: blocks
 \* after a retarget), and the cumulative work of a chain above the base tip (+ BaseH so that it compares like a height)
-BlkWork(b) == IF "work" \in DOMAIN BlkDef[b] THEN BlkDef[b].work ELSE 1
+BlkWork(b) == IF "work" \in DOMAIN BlkDef[b] /\ BlkDef[b].work > 0 THEN BlkDef[b].work ELSE 1
 RECURSIVE Work(_)
 Work(b) == IF b = 0 THEN BaseH ELSE BlkWork(b) + Work(Parent(b))
 
